@@ -11,6 +11,7 @@ import Cte.Model.RadTable
 import Cte.Model.Bvh
 import Cte.Model.Box
 import Cte.Model.Ray
+import Cte.Model.Fshobst
 open Cte
 
 def warnKindStr : WarnKind → String
@@ -195,6 +196,48 @@ def opRayPoly (req : J) : J :=
                                  ("denom", jr (polyNormalZ poly * (inv.rot r.d).z))]
               | none => J.null)))]
 
+def poseOf (rot tr : Option J) : Option Pose :=
+  match rot, tr with
+  | some (J.arr [a, b, c]), some t =>
+    match v3Of a, v3Of b, v3Of c, v3Of t with
+    | some a, some b, some c, some t => some { r0 := a, r1 := b, r2 := c, t := t }
+    | _, _, _, _ => none
+  | _, _ => none
+
+def occOf (j : J) : Option Occ :=
+  let poly : List P2 := match j.get? "polygon" with
+    | some (J.arr l) => l.filterMap (fun p => match jnums p with | [a, b] => some ⟨a, b⟩ | _ => none)
+    | _ => []
+  match poseOf (j.get? "inv_rot") (j.get? "inv_tr"), (j.get? "aabb").bind box3Of with
+  | some inv, some bb => some { poly := poly, inv := inv, aabb := bb }
+  | _, _ => none
+
+/-- op `fshobst`: per window, the factor from the per-hour inputs (definition) in the three rounding
+regimes, and for the hours that carry the ray-casting problem, the exact sunlit fraction -/
+def opFshobst (req : J) : J :=
+  let wins := match req.get? "windows" with | some (J.arr l) => l | _ => []
+  J.obj [("windows", J.arr (wins.map (fun w =>
+    let hours := match w.get? "hours" with | some (J.arr l) => l | _ => []
+    let ins : List HourIn := hours.filterMap (fun h =>
+      match (h.get? "f").bind jnum?, (h.get? "dir").bind jnum?, (h.get? "dif").bind jnum? with
+      | some f, some d, some i => some { f := f, dir := d, dif := i }
+      | _, _, _ => none)
+    let detail := hours.map (fun h =>
+      match h.get? "detail" with
+      | some d =>
+        let origins := match d.get? "origins" with | some (J.arr l) => l.filterMap v3Of | _ => []
+        let occ := match d.get? "occluders" with | some (J.arr l) => l.filterMap occOf | _ => []
+        let hasPos := match d.get? "has_position" with | some (J.bool b) => b | _ => false
+        match (h.get? "sun").bind v3Of, (h.get? "ndot").bind jnum? with
+        | some sun, some nd => jr (sunlitFraction hasPos nd origins sun occ)
+        | some sun, none => jr (sunlitFraction false 0 origins sun occ)
+        | _, _ => J.null
+      | none => J.null)
+    J.obj [("window", (w.get? "window").getD J.null), ("n_hours", J.ofNat ins.length),
+           ("all_hours_finite", J.bool (ins.length = hours.length)),
+           ("factor", J.arr [jr (fshobst (Fns.approx 0) ins), jr (fshobst (Fns.approx (-1)) ins), jr (fshobst (Fns.approx 1) ins)]),
+           ("raw", jr (fshobstRaw ins)), ("f_detail", J.arr detail)])))]
+
 def withModel (req : J) (f : Model → J) : J :=
   match req.get? "model" with
   | none => J.obj [("error", J.str "no model")]
@@ -215,6 +258,7 @@ def handle (line : String) : String :=
       | some (J.str "indicators") => withModel req (opIndicators req)
       | some (J.str "classify") => opClassify req
       | some (J.str "bvh") => opBvh req
+      | some (J.str "fshobst") => opFshobst req
       | some (J.str "raypoly") => opRayPoly req
       | some (J.str "noop") => J.obj []
       | some (J.str "load") => withModel req (fun _ => J.obj [("ok", J.bool true)])
